@@ -237,8 +237,8 @@ S2CFG = dict(arch_version=7, memory_system_architecture='VMSA', memory_list=MEM,
 
 def s2_desc(rnd, level, ident):
     r = rnd.random()
-    memattr = rnd.choice([0xF, 0xF, 0xF, 0x5, 0xA, 0x7, 0xD, 0x0, 0x1, 0x4, 0x2, rnd.randrange(16)])
-    hap = rnd.choice([3, 3, 3, 1, 2, 0])
+    memattr = rnd.choice([0xF, 0xF, 0xF, 0x5, 0xA, 0x7, 0xD, 0xB, 0xE, 0x6, 0x9, 0x0, 0x1, 0xF, 0x5, rnd.randrange(16)])
+    hap = rnd.choice([3, 3, 3, 3, 3, 3, 1, 2, 0])
     af = 0 if rnd.random() < 0.06 else 1
     lower = (af << 10) | (rnd.getrandbits(2) << 8) | (hap << 6) | (memattr << 2)
     upper = rnd.getrandbits(1) << 54
@@ -251,7 +251,7 @@ def s2_desc(rnd, level, ident):
     ext = (rnd.randrange(1, 256) << 32) if rnd.random() < 0.08 else 0
     if level == 3:
         oa = ident if rnd.random() < 0.6 else rnd.choice([0, 0x1000, 0x4000, 0xC000, rnd.getrandbits(32)])
-        if r < 0.5:
+        if r < 0.15:
             return upper | (oa & 0xFFFFF000) | lower | 1                            # reserved at level 3: invalid
         return upper | ext | (oa & 0xFFFFF000) | lower | 3                          # page
     lsb = 30 if level == 1 else 21
